@@ -116,6 +116,9 @@ def case_array(ctx, rng, dormant=False):
             x = x2
             if any(k_ not in x.blocks for k_ in phases_of(x)):
                 ctx.count("feature", "sign-entries-for-removed-blocks")
+    if not dormant and rng.random() < 0.12 and gen.real_parts_in_some_blocks(rng, x):
+        # real and complex blocks side by side (what a + 1j * b leaves behind)
+        ctx.count("feature", "real-and-complex-blocks")
     n2 = norm2(x)
     odd = R.par(sym, x.charge)
     allket = all(not ix.dual for ix in x.indices)
